@@ -69,9 +69,12 @@ UNCLS = {'UMinus': 'UnaryMinus', 'Exp': 'exp', 'Log': 'log', 'Logzero': 'logzero
 class Builder:
     def __init__(self, spec):
         self.spec = spec
+        self.objects = {}       # history mode: id -> expression built at some step
+        self.all_ctrls = {}     # every Controller object seen, by name
         self.controllers = {}
         for name, specs in spec.get('controllers', {}).items():
             self.controllers[name] = Controller(name, specs)
+            self.all_ctrls[name] = self.controllers[name]
         self.helpers = []
         for h in spec.get('helpers', []):
             betas = [Beta(n, v, None, None, 1 if fx else 0) for n, fx, v in h['betas']]
@@ -84,9 +87,16 @@ class Builder:
                 self.helpers.append(generic_alt_specific_catalogs(
                     h['gname'], betas, tuple(h['alts']), segs if h['segs'] else (None if h.get('none') else ()),
                     h['max']))
+        for h in self.helpers:
+            cats = h if not (h and isinstance(h[0], dict)) else [c for d in h for c in d.values()]
+            for top in cats:
+                for cat in all_catalogs(top, []):
+                    self.all_ctrls.setdefault(cat.controlled_by.controller_name, cat.controlled_by)
 
     def node(self, n):
         t = n['t']
+        if t == 'ref':
+            return self.objects[n['id']]
         if t == 'num':
             return Numeric(n['v'])
         if t == 'beta':
@@ -115,10 +125,13 @@ class Builder:
                 if n.get('fresh_ctrl'):  # malformed probe: a second Controller object with a used name
                     ctrl = Controller(n['ctrl'], [nm for nm, _ in members])
                 else:
-                    ctrl = self.controllers[n['ctrl']]
+                    ctrl = self.controllers.get(n['ctrl']) or self.all_ctrls[n['ctrl']]
             if n.get('ctor') == 'dict':
-                return Catalog.from_dict(n['name'], dict(members), controlled_by=ctrl)
-            return Catalog(n['name'], [NamedExpression(nm, m) for nm, m in members], controlled_by=ctrl)
+                cat = Catalog.from_dict(n['name'], dict(members), controlled_by=ctrl)
+            else:
+                cat = Catalog(n['name'], [NamedExpression(nm, m) for nm, m in members], controlled_by=ctrl)
+            self.all_ctrls.setdefault(cat.controlled_by.controller_name, cat.controlled_by)
+            return cat
         if t == 'seg':
             return self.helpers[n['h']][n['b']]
         if t == 'gas':
@@ -395,11 +408,112 @@ def run_structure(c):
     return res
 
 
+def observe_object(expr, want_value):
+    """one object of a history, observed without selecting anything"""
+    o = observe(expr, want_value)
+    try:
+        o['current_sels'] = [list(x) for x in expr.current_configuration().selections]
+    except Exception as e:  # noqa
+        o['current_sels_exc'] = exc(e)
+    try:
+        o['number'] = expr.number_of_multiple_expressions()
+        confs = expr.set_of_configurations()
+        o['ids'] = None if confs is None else sorted(c.string_id for c in confs)
+    except Exception as e:  # noqa
+        o['set_exc'] = exc(e)
+    return o
+
+
+def run_history(c):
+    """steps executed in order; after every step every object built so far is observed"""
+    b = Builder({'controllers': c.get('controllers', {}), 'helpers': c.get('helpers', [])})
+    out = []
+    record = []
+    orig = bctrl.random.choices
+
+    def spy(population, *a, **k):
+        r = orig(population, *a, **k)
+        record.append(list(r))
+        return r
+
+    for st in c['steps']:
+        r = {'ok': True}
+        try:
+            do = st['do']
+            if do == 'build':
+                b.objects[st['id']] = b.node(st['node'])
+            elif do == 'configure':
+                b.objects[st['f']].configure_catalogs(Configuration([SelectionTuple(x, y) for x, y in st['sels']]))
+            elif do == 'select':
+                b.objects[st['f']].select_expression(st['ctrl'], st['index'])
+            elif do == 'op':
+                obj = b.objects[st['f']]
+                cc = obj.central_controller if obj.central_controller is not None else obj.set_central_controller()
+                ops = cc.prepare_operators()
+                del record[:]
+                bctrl.random.choices = spy
+                try:
+                    new, k = ops[st['op']](obj.current_configuration(), st['step'])
+                finally:
+                    bctrl.random.choices = orig
+                r['id'] = new.string_id
+                r['ret'] = k
+                r['choice'] = record[0] if record else None
+            elif do == 'iterate':
+                it = iter(b.objects[st['f']])
+                seen = []
+                for _ in range(st['n']):
+                    try:
+                        e = next(it)
+                    except StopIteration:
+                        break
+                    seen.append(e.current_configuration().string_id)
+                r['seen'] = seen
+            elif do == 'ctrl':
+                k = b.all_ctrls[st['ctrl']]
+                call = st['call']
+                if call == 'set_index':
+                    k.set_index(st['arg'])
+                elif call == 'set_name':
+                    k.set_name(st['arg'])
+                elif call == 'reset_selection':
+                    k.reset_selection()
+                elif call == 'modify':
+                    r['ret'] = k.modify_controller(step=st['arg'], circular=st['circular'])
+                else:
+                    raise ValueError(call)
+            else:
+                raise ValueError(do)
+        except Exception as e:  # noqa
+            r = {'ok': False, **exc(e)}
+        try:
+            r['ctrl_state'] = {n: k.current_index for n, k in b.all_ctrls.items()}
+        except Exception as e:  # noqa
+            r['ctrl_state_exc'] = exc(e)
+        obs = {}
+        for i in st.get('observe', []):
+            if i in b.objects:
+                try:
+                    obs[str(i)] = observe_object(b.objects[i], c.get('value', False))
+                except Exception as e:  # noqa
+                    obs[str(i)] = {'obs_exc': exc(e)}
+        r['obs'] = obs
+        out.append(r)
+    return out
+
+
 def main():
     payload = json.load(sys.stdin)
     mode = payload['mode']
     if mode == 'config':
         out = run_config(payload['cases'])
+    elif mode == 'history':
+        out = []
+        for c in payload['cases']:
+            try:
+                out.append({'steps': run_history(c)})
+            except Exception as e:  # noqa
+                out.append({'harness': True, **exc(e), 'tb': traceback.format_exc()[-800:]})
     else:
         out = []
         for c in payload['cases']:
